@@ -15,7 +15,8 @@ fn networks(cfg: i64) -> Vec<Vec<(&'static str, &'static str, u8)>> {
         1 => vec![vec![("kübler", "encoder", 0x6a), ("kübler", "encoder", 0x6b), ("kübler", "encoder", 0x6c), ("kübler", "encoder", 0x6d), ("kübler", "inclinometer", 0x7a)],
                   vec![("volvo", "d7e", 0x00), ("laixer", "vcu", 0x12), ("laixer", "hcu", 0x4a)]],
         2 => vec![vec![("laixer", "hcu", 0x4a), ("kübler", "encoder", 0x6a), ("laixer", "hcu", 0x4b)]],
-        _ => vec![vec![("kübler", "inclinometer", 0x7a), ("j1939", "ecu", 0x20)]],
+        3 => vec![vec![("kübler", "inclinometer", 0x7a), ("j1939", "ecu", 0x20)]],
+        _ => vec![vec![("laixer", "hcu", 0x4a), ("laixer", "vcu", 0x12)]],   // cfg 4: with 100 ms timeouts (silent units); cfg 5: congested bus at start-up
     }
 }
 
@@ -31,10 +32,15 @@ pub fn exec(c: &[i64]) -> Vec<i64> {
         let iface = format!("z{}n{}", tag, i);
         buses.push(Bus::new(&iface));
         toml += &format!("[[j1939]]\ninterface = \"{}\"\naddress = 0x27\ndriver = [\n", iface);
-        for (v, p, da) in net { toml += &format!("  {{ da = {}, vendor = \"{}\", product = \"{}\" }},\n", da, v, p); }
+        for (v, p, da) in net {
+            if cfg == 4 { toml += &format!("  {{ da = {}, timeout = 100, vendor = \"{}\", product = \"{}\" }},\n", da, v, p); }
+            else { toml += &format!("  {{ da = {}, vendor = \"{}\", product = \"{}\" }},\n", da, v, p); }
+        }
         toml += "]\n[j1939.name]\nmanufacturer_code = 0\nfunction_instance = 2\necu_instance = 1\nfunction = 255\nvehicle_system = 5\nvehicle_system_instance = 5\nindustry_group = 3\n";
     }
     let cfgp = work.join("g.conf"); std::fs::write(&cfgp, toml).unwrap();
+    let congested = cfg == 5;
+    if congested { for b in &buses { b.congest(); } }
     let mut child = match std::process::Command::new(GLONAXD).arg("-c").arg(&cfgp).arg("--quiet")
         .env("GLONAX_VERIF_BUS", bus_dir()).stdout(std::process::Stdio::null()).stderr(std::process::Stdio::null()).spawn() {
         Ok(c) => c, Err(_) => return vec![-2] };
@@ -42,8 +48,11 @@ pub fn exec(c: &[i64]) -> Vec<i64> {
     let t_up = Instant::now();
     let mut seen = vec![false; buses.len()];
     while t_up.elapsed() < Duration::from_secs(5) {
-        for (i, b) in buses.iter_mut().enumerate() { if !b.pump().is_empty() { seen[i] = true; } }
-        if sock.exists() && seen.iter().all(|x| *x) { break; }
+        if congested { if sock.exists() { std::thread::sleep(Duration::from_millis(40)); break; } }
+        else {
+            for (i, b) in buses.iter_mut().enumerate() { if !b.pump().is_empty() { seen[i] = true; } }
+            if sock.exists() && seen.iter().all(|x| *x) { break; }
+        }
         std::thread::sleep(Duration::from_millis(2));
     }
     let mut clients: Vec<UnixStream> = Vec::new();
@@ -57,9 +66,11 @@ pub fn exec(c: &[i64]) -> Vec<i64> {
     if burst > 0 { if let Some(s) = clients.first_mut() {
         for j in 0..burst { let mut f = crate::session::header(0x20, 3); let v = (j as u16).to_be_bytes(); f.extend([5, v[0], v[1]]); let _ = s.write_all(&f); }
     } }
-    for b in buses.iter_mut() { b.pump(); }
+    if !congested { for b in buses.iter_mut() { b.pump(); } }
     let t0 = Instant::now();
     unsafe { libc::kill(child.id() as i32, sig); }
+    // a bus that was congested while the daemon started (the tasks are still inside setup) drains shortly after the signal
+    if congested { std::thread::sleep(Duration::from_millis(150)); for b in &buses { b.release(); } }
     let mut status = None;
     while t0.elapsed() < Duration::from_secs(6) {
         if let Ok(Some(st)) = child.try_wait() { status = Some(st); break; }
@@ -72,6 +83,7 @@ pub fn exec(c: &[i64]) -> Vec<i64> {
     let mut resets: Vec<i64> = Vec::new();
     for (i, net) in nets.iter().enumerate() {
         let frames = buses[i].pump();
+        if std::env::var("C16_DEBUG").is_ok() { for r in &frames { eprintln!("after-signal frame: {:02x?}", r); } }
         for (_, p, da) in net { if *p == "hcu" {
             let n = frames.iter().filter(|r| { let id = u32::from_le_bytes([r[0], r[1], r[2], r[3]]) & 0x1fffffff;
                 (id >> 8) & 0xffff == (45824 | *da as u32) && r[4] == 5 && r[8..13] == [b'Z', b'C', 0xff, 0xff, 0x01] }).count();
@@ -92,9 +104,10 @@ pub fn gen(o: &Opts, sink: &mut dyn FnMut(Vec<i64>, String)) {
     let n = if o.tier_thorough { 200 } else { 16 };
     for j in 0..n {
         k += 1; if !mine(o, k) { continue; }
-        let cfg = (j % 4) as i64;
+        let cfg = (j % 6) as i64;
         let delay = *rng.pick(&[0i64, 5, 50, 500, 12, 27]);
         let delay = if !o.tier_thorough && delay == 500 && j % 8 != 0 { 50 } else { delay };
+        let delay = if cfg == 4 { 300 } else { delay };     // silent units: longer than their timeout
         let nclients = (j / 4 % 4) as i64;
         let burst = if nclients > 0 && j % 3 == 0 { *rng.pick(&[10i64, 40, 200]) } else { 0 };
         let sig = if j % 5 == 4 { 2 } else { 15 };
